@@ -6,9 +6,13 @@ What == IOEnv.VH_WHAT
 OutF == IOEnv.VH_OUT
 NN   == atoi(IOEnv.VH_N)
 
-PatSet == IF IOEnv.VH_PROF = "ctxfill" THEN CtxFillPats ELSE PatsOfSize(NN, Prof(IOEnv.VH_PROF))
+PatSet == IF IOEnv.VH_PROF = "ctxfill" THEN CtxFillPats ELSE IF IOEnv.VH_PROF = "condctx" THEN CondCtxFillPats ELSE PatsOfSize(NN, Prof(IOEnv.VH_PROF))
 PatRecs == LET S == SetToSeq(PatSet)
            IN [q \in 1..Len(S) |-> [id |-> q, ast |-> S[q].ast, ng |-> S[q].ng]]
+\* single-site injections of every pattern of the base space
+InjRecs == LET B == SetToSeq(PatSet)
+               S == SetToSeq(UNION { { [ast |-> x, base |-> b.ast, ng |-> b.ng] : x \in {y \in Injections(b.ast) : InjectOK(y)} } : b \in PatSet })
+           IN [q \in 1..Len(S) |-> [id |-> q, ast |-> S[q].ast, base |-> S[q].base, ng |-> S[q].ng]]
 Sig == CASE IOEnv.VH_SIG = "sig6" -> SIG6
          [] IOEnv.VH_SIG = "case4" -> <<"a", "A", "b", "B">>
          [] IOEnv.VH_SIG = "wide" -> <<"a", "E", "T", "Q", "N">>
@@ -19,6 +23,7 @@ VARIABLE done
 Init == done = FALSE
 Next == /\ ~done /\ done' = TRUE
         /\ CASE What = "pats"  -> /\ ndJsonSerialize(OutF, PatRecs) /\ PrintT(<<"EXPORTED", Len(PatRecs)>>)
+             [] What = "inject" -> /\ ndJsonSerialize(OutF, InjRecs) /\ PrintT(<<"EXPORTED", Len(InjRecs)>>)
              [] What = "texts" -> /\ ndJsonSerialize(OutF, TextRecs) /\ PrintT(<<"EXPORTED", Len(TextRecs)>>)
 Spec == Init /\ [][Next]_done
 =============================================================================
